@@ -309,16 +309,17 @@ func (s *brState) unify(a, b depth) bool {
 }
 
 type brInterp struct {
-	c        *core.Ctx
-	m        *opModel
-	info     *types.Info
-	fx       map[int64]*opFx
-	emitAt   map[token.Pos]emitSite
-	curIndex int64
-	nChild   int64
-	ciParam  types.Object
-	fns      map[string]*types.Func
-	locals   map[types.Object]int64
+	c          *core.Ctx
+	m          *opModel
+	info       *types.Info
+	fx         map[int64]*opFx
+	emitAt     map[token.Pos]emitSite
+	curIndex   int64
+	nChild     int64
+	ciParam    types.Object
+	fns        map[string]*types.Func
+	locals     map[types.Object]int64
+	boolLocals map[types.Object]ast.Expr
 }
 
 func (bi *brInterp) fail(s *brState, format string, args ...any) {
@@ -384,6 +385,57 @@ func (bi *brInterp) cond(e ast.Expr) (bool, bool) {
 		}
 	}
 	return false, false
+}
+
+type brCondOut struct {
+	s   *brState
+	val bool
+}
+
+// evalCond evaluates a branch condition on state s.  Parts that are constant
+// for the concrete child index / child count are computed; every other atom
+// (a test on node.M, node.N, emitCapture(node) ...) forks the state once and is
+// remembered under its canonical spelling, so that the Before- and After-arms
+// of one node, an `if` and the equivalent tagless `switch`, `a > b` and
+// `b < a`, or a condition kept in a boolean local, all take consistent sides.
+func (bi *brInterp) evalCond(e ast.Expr, s *brState) []brCondOut {
+	e = ast.Unparen(e)
+	if v, known := bi.cond(e); known {
+		return []brCondOut{{s, v}}
+	}
+	switch x := e.(type) {
+	case *ast.UnaryExpr:
+		if x.Op == token.NOT {
+			out := bi.evalCond(x.X, s)
+			for i := range out {
+				out[i].val = !out[i].val
+			}
+			return out
+		}
+	case *ast.BinaryExpr:
+		if x.Op == token.LAND || x.Op == token.LOR {
+			var out []brCondOut
+			for _, l := range bi.evalCond(x.X, s) {
+				if l.val == (x.Op == token.LOR) { // short circuit
+					out = append(out, l)
+					continue
+				}
+				out = append(out, bi.evalCond(x.Y, l.s)...)
+			}
+			return out
+		}
+	case *ast.Ident:
+		if def, ok := bi.boolLocals[bi.info.ObjectOf(x)]; ok {
+			return bi.evalCond(def, s)
+		}
+	}
+	key := condKey(e)
+	if v, ok := s.sig[key]; ok {
+		return []brCondOut{{s, v}}
+	}
+	t, f := s.clone(), s.clone()
+	t.sig[key], f.sig[key] = true, false
+	return []brCondOut{{t, true}, {f, false}}
 }
 
 func (bi *brInterp) run(stmts []ast.Stmt, states []*brState) []*brState {
@@ -598,6 +650,9 @@ func (bi *brInterp) stmt(st ast.Stmt, s *brState) []*brState {
 					s.recs[obj] = r
 				} else if v, ok := bi.constVal(x.Rhs[0]); ok {
 					bi.locals[obj] = v
+				} else if isBoolExpr(bi.info, x.Rhs[0]) && x.Tok == token.DEFINE {
+					// a condition kept in a local: evaluated where it is tested
+					bi.boolLocals[obj] = x.Rhs[0]
 				}
 			}
 		}
@@ -615,20 +670,55 @@ func (bi *brInterp) stmt(st ast.Stmt, s *brState) []*brState {
 			}
 			return bi.run([]ast.Stmt{x.Else}, []*brState{s})
 		}
-		if v, known := bi.cond(x.Cond); known {
-			return branch(s, v)
+		var out []*brState
+		for _, o := range bi.evalCond(x.Cond, s) {
+			out = append(out, branch(o.s, o.val)...)
 		}
-		key := types.ExprString(x.Cond)
-		if v, ok := s.sig[key]; ok {
-			return branch(s, v)
-		}
-		t, f := s.clone(), s.clone()
-		t.sig[key], f.sig[key] = true, false
-		return append(branch(t, true), branch(f, false)...)
+		return out
 	case *ast.SwitchStmt:
 		if x.Tag == nil {
-			bi.fail(s, "tagless switch in an arm")
-			return []*brState{s}
+			// an if / else-if chain: clauses in order, the default last
+			var out []*brState
+			rest := []*brState{s}
+			var deflt *ast.CaseClause
+			for _, cs := range x.Body.List {
+				cc := cs.(*ast.CaseClause)
+				if cc.List == nil {
+					deflt = cc
+					continue
+				}
+				for _, st := range cc.Body {
+					if b, ok := st.(*ast.BranchStmt); ok && b.Tok == token.FALLTHROUGH {
+						bi.fail(s, "fallthrough in a tagless switch")
+						return []*brState{s}
+					}
+				}
+				var cond ast.Expr
+				for _, e := range cc.List {
+					if cond == nil {
+						cond = e
+					} else {
+						cond = &ast.BinaryExpr{X: cond, Op: token.LOR, Y: e}
+					}
+				}
+				var next []*brState
+				for _, r := range rest {
+					for _, o := range bi.evalCond(cond, r) {
+						if o.val {
+							out = append(out, bi.run(cc.Body, []*brState{o.s})...)
+						} else {
+							next = append(next, o.s)
+						}
+					}
+				}
+				rest = next
+			}
+			if deflt != nil {
+				out = append(out, bi.run(deflt.Body, rest)...)
+			} else {
+				out = append(out, rest...)
+			}
+			return out
 		}
 		tv, ok := bi.constVal(x.Tag)
 		if !ok {
@@ -668,6 +758,28 @@ func (bi *brInterp) stmt(st ast.Stmt, s *brState) []*brState {
 			}
 			if !v {
 				break
+			}
+			states = bi.run(x.Body.List, states)
+		}
+		return states
+	case *ast.RangeStmt:
+		// for range N / for i := range N with N known for this child index
+		n, ok := bi.constVal(x.X)
+		if tv, has := bi.info.Types[x.X]; !ok || !has || tv.Type == nil {
+			bi.fail(s, "range over a symbolic value")
+			return []*brState{s}
+		} else if b, isB := tv.Type.Underlying().(*types.Basic); !isB || b.Info()&types.IsInteger == 0 {
+			bi.fail(s, "range over a non-integer")
+			return []*brState{s}
+		}
+		if n > 64 {
+			bi.fail(s, "loop bound too large")
+			return []*brState{s}
+		}
+		states := []*brState{s}
+		for i := int64(0); i < n; i++ {
+			if id, ok := x.Key.(*ast.Ident); ok && id.Name != "_" {
+				bi.locals[bi.info.ObjectOf(id)] = i
 			}
 			states = bi.run(x.Body.List, states)
 		}
@@ -750,6 +862,7 @@ func RBracket(c *core.Ctx) {
 			for i := int64(0); i < n; i++ {
 				bi.curIndex = i
 				bi.locals = map[types.Object]int64{}
+				bi.boolLocals = map[types.Object]ast.Expr{}
 				states = bi.run(before.Body, states)
 				for _, s := range states {
 					// the child's code: reached by fall-through or by jumps seen later; leaves the depth as it found it
@@ -760,6 +873,7 @@ func RBracket(c *core.Ctx) {
 					s.trace = append(s.trace, fmt.Sprintf("<child %d>", i))
 				}
 				bi.locals = map[types.Object]int64{}
+				bi.boolLocals = map[types.Object]ast.Expr{}
 				states = bi.run(after.Body, states)
 			}
 			bad := ""
